@@ -192,6 +192,17 @@ def _extract_gen(ctx):
                                 "set_states, unset_states, push_states, pop_states, and _state_check_chain per value "
                                 "of `do`, via harness/pygen_pxpolicy.py + harness/pygen.py; equality theorems "
                                 "getOne/setOne/unsetOne/checkOne/pushOne/popOne/stateCheckChain_matches_source)")
+    # third tie: ONE level of the recursive generator _parametric_object_iteration (harness/pygen_pxiter.py)
+    import pygen_pxiter
+    if pygen_pxiter.extract_iter(ctx):
+        ctx.notes.append("I2N/Extracted/GenIter.lean changed: the source of _parametric_object_iteration differs from "
+                         "the one the committed file was generated from (iterLevel_matches_source / "
+                         "iterObjects_matches_source are re-checked)")
+    ctx.extra["regenerated_iter"] = ("lean/I2N/Extracted/GenIter.lean (one level of the recursive generator "
+                                     "_parametric_object_iteration with the recursive call as a function argument and "
+                                     "the shared list `composites` as state, via harness/pygen_pxiter.py; equality "
+                                     "theorems iterLevel_matches_source, iterObjects_matches_source; hypothesis "
+                                     "topStable, witness iterObjects_unstable_witness)")
 
 
 def _load_consts():
